@@ -230,3 +230,124 @@ impl Spelling {
         }
     }
 }
+
+
+/// The normal form of `p` with exactly ONE departure from it (a report that looks at a few
+/// features only, e.g. a regular expression for "canonical", misses the one it does not look at).
+/// Returns the normal form itself when the chosen departure does not apply.
+pub fn one_deviation(p: &PepV, kind: u8, k: usize) -> String {
+    let n = p.normal();
+    let (public, local) = match n.split_once('+') {
+        Some((a, b)) => (a.to_string(), Some(b.to_string())),
+        None => (n.clone(), None),
+    };
+    let join = |pubp: String, loc: Option<String>| match loc {
+        Some(l) => format!("{pubp}+{l}"),
+        None => pubp,
+    };
+    // positions of digit runs in the public part
+    let runs = |t: &str| -> Vec<(usize, usize)> {
+        let b = t.as_bytes();
+        let mut v = vec![];
+        let mut i = 0;
+        while i < b.len() {
+            if b[i].is_ascii_digit() {
+                let s = i;
+                while i < b.len() && b[i].is_ascii_digit() {
+                    i += 1;
+                }
+                v.push((s, i));
+            } else {
+                i += 1;
+            }
+        }
+        v
+    };
+    match kind % 10 {
+        0 => format!("v{n}"),
+        1 => {
+            // upper-case one letter
+            let idx: Vec<usize> = n.char_indices().filter(|(_, c)| c.is_ascii_lowercase()).map(|(i, _)| i).collect();
+            if idx.is_empty() {
+                return n;
+            }
+            let i = idx[k % idx.len()];
+            format!("{}{}{}", &n[..i], n[i..i + 1].to_ascii_uppercase(), &n[i + 1..])
+        }
+        2 => {
+            // leading zero on one number of the public part
+            let r = runs(&public);
+            if r.is_empty() {
+                return n;
+            }
+            let (s, _) = r[k % r.len()];
+            join(format!("{}0{}", &public[..s], &public[s..]), local)
+        }
+        3 => {
+            // leading zero on one all-digit local segment
+            let Some(l) = local else { return n };
+            let mut segs: Vec<String> = l.split('.').map(String::from).collect();
+            let numeric: Vec<usize> = segs.iter().enumerate().filter(|(_, x)| x.bytes().all(|b| b.is_ascii_digit())).map(|(i, _)| i).collect();
+            if numeric.is_empty() {
+                return n;
+            }
+            let i = numeric[k % numeric.len()];
+            segs[i] = format!("{}{}", "0".repeat(1 + k % 3), segs[i]);
+            join(public, Some(segs.join(".")))
+        }
+        4 => {
+            // another separator inside the local part
+            let Some(l) = local else { return n };
+            let dots: Vec<usize> = l.char_indices().filter(|(_, c)| *c == '.').map(|(i, _)| i).collect();
+            if dots.is_empty() {
+                return n;
+            }
+            let i = dots[k % dots.len()];
+            join(public, Some(format!("{}{}{}", &l[..i], ["-", "_"][k % 2], &l[i + 1..])))
+        }
+        5 => {
+            if p.epoch == 0 { format!("0!{n}") } else { n }
+        }
+        6 => {
+            // alternative label spelling
+            for (from, to) in [("rc", ["c", "pre", "preview"][k % 3]), (".post", ["-post", "post", ".rev", ".r", "_post"][k % 5]), (".dev", ["dev", "-dev", "_dev"][k % 3]), ("a", "alpha"), ("b", "beta")] {
+                if let Some(i) = public.find(from) {
+                    // "a"/"b" only as the pre-release label (directly after a digit)
+                    if from.len() == 1 && !(i > 0 && public.as_bytes()[i - 1].is_ascii_digit()) {
+                        continue;
+                    }
+                    return join(format!("{}{}{}", &public[..i], to, &public[i + from.len()..]), local);
+                }
+            }
+            n
+        }
+        7 => {
+            // a separator between label and number
+            for lab in ["rc", "post", "dev", "a", "b"] {
+                if let Some(i) = public.find(lab) {
+                    if lab.len() == 1 && !(i > 0 && public.as_bytes()[i - 1].is_ascii_digit()) {
+                        continue;
+                    }
+                    let j = i + lab.len();
+                    if j < public.len() && public.as_bytes()[j].is_ascii_digit() {
+                        return join(format!("{}{}{}", &public[..j], [".", "-", "_"][k % 3], &public[j..]), local);
+                    }
+                }
+            }
+            n
+        }
+        8 => {
+            // a separator before the pre-release label
+            for lab in ["rc", "a", "b"] {
+                if let Some(i) = public.find(lab)
+                    && i > 0
+                    && public.as_bytes()[i - 1].is_ascii_digit()
+                {
+                    return join(format!("{}{}{}", &public[..i], [".", "-", "_"][k % 3], &public[i..]), local);
+                }
+            }
+            n
+        }
+        _ => n,
+    }
+}
